@@ -146,7 +146,7 @@ def parse_template(path):
                 rest = m.group(2)
                 # path ends at first opt token; opts are known keywords
                 toks = split_opts(rest)
-                optkw = ("subst(", "closurepat(", "fragment(", "addgenerics(", "sigsubst(", "bound(", "attr(", "ret(", "mono(", "nogenerics", "nowhere", "keepvis", "keepattrs", "desugar(",
+                optkw = ("subst(", "optsubst(", "closurepat(", "fragment(", "addgenerics(", "sigsubst(", "bound(", "attr(", "ret(", "mono(", "nogenerics", "nowhere", "keepvis", "keepattrs", "desugar(",
                          "trusted", "rename(", "nobody", "novis")
                 ptoks, otoks = [], []
                 for t in toks:
@@ -294,10 +294,14 @@ def assemble_item(d, info, src, srcfile_label, log):
         recv = ps[0]["span"]
         add(recv[0], recv[1], "mut self_: Self", "DESUGAR_MUT_SELF")
     for o in d.opts:
-        if o.startswith("subst("):
-            # textual type substitution anywhere in the item (a generic instance replaced by its prelude model)
-            frm, to = [x.strip() for x in o[6:-1].split("=>")]
+        if o.startswith("subst(") or o.startswith("optsubst("):
+            # textual type substitution anywhere in the item (a generic instance replaced by its prelude model);
+            # optsubst: the instance may be absent (nothing to replace then)
+            optional = o.startswith("optsubst(")
+            frm, to = [x.strip() for x in o[(9 if optional else 6):-1].split("=>")]
             hits = list(re.finditer(re.escape(frm.encode()), src[start:end]))
+            if not hits and optional:
+                continue
             if not hits:
                 raise Undecided(f"{d.path}: subst: `{frm}` not found -- anchor lost")
             for m_ in hits:
